@@ -123,63 +123,71 @@ Fixpoint decode_trace (l : list N) : option (list event) :=
 
 (* ---- "two adjacent vertices are never moved concurrently", on a trace ----
    A task is CRITICAL on v from the moment it has acquired lock v and read all
-   of v's neighbour locks as free, until it releases lock v.  The automaton
-   below tracks this per task from the events alone (it does not use the
-   machine) and rejects a trace in which two tasks are critical on equal or
-   adjacent vertices, a part id is stored outside a critical section, or the
-   lock events are not well-bracketed. *)
-Inductive tst := TIdle | THold (v : nat) (cleared : nat) | TCrit (v : nat).
+   of v's neighbour locks as free, until it releases lock v.  A MOVE WINDOW is
+   a critical section that contains a store of a part id (positions of the
+   trace: [start, release]); a store made outside any critical section is a
+   window of one position.  The checker extracts the move windows from the
+   events alone (it does not use the machine) and rejects a trace in which the
+   windows of two equal or adjacent vertices overlap.  Lock events that are not
+   well-bracketed end the extraction (that is a correspondence failure, not a
+   statement about moves). *)
+Inductive tst := TIdle | THold (v : nat) (cleared : nat) | TCrit (v : nat) (start : nat) (stored : bool).
 
 Definition adjacentb (g : graph) (v w : nat) : bool :=
   Nat.eqb v w || existsb (Nat.eqb w) (nbrs g v) || existsb (Nat.eqb v) (nbrs g w).
 
-Definition crit_of (s : tst) : option nat := match s with TCrit v => Some v | _ => None end.
+Record window := mkWin { wi_task : nat; wi_v : nat; wi_start : nat; wi_end : nat }.
 
-Definition tst_step (g : graph) (s : tst) (e : event) : option tst :=
+(* new state of the task, and the window the event closes (if any); None = not well-bracketed *)
+Definition tst_step (g : graph) (i : nat) (s : tst) (e : event) : option (tst * option window) :=
+  let t := e_task e in
   match e_kind e, s with
   | KCas, TIdle =>
       if Nat.eqb (e_val e) 1
-      then Some (if Nat.eqb (length (row g (e_idx e))) 0 then TCrit (e_idx e) else THold (e_idx e) 0)
-      else Some TIdle
+      then Some (if Nat.eqb (length (row g (e_idx e))) 0 then TCrit (e_idx e) i false else THold (e_idx e) 0, None)
+      else Some (TIdle, None)
   | KCas, _ => None
   | KReadLock, THold v c =>
       if Nat.eqb (e_val e) 0
-      then Some (if Nat.eqb (S c) (length (row g v)) then TCrit v else THold v (S c))
-      else Some (THold v c)
+      then Some (if Nat.eqb (S c) (length (row g v)) then TCrit v i false else THold v (S c), None)
+      else Some (THold v c, None)
   | KReadLock, _ => None
-  | KReadPart, _ => Some s
-  | KStorePart, TCrit v => if Nat.eqb v (e_idx e) then Some s else None
-  | KStorePart, _ => None
-  | KUnlock, THold v _ => if Nat.eqb v (e_idx e) then Some TIdle else None
-  | KUnlock, TCrit v => if Nat.eqb v (e_idx e) then Some TIdle else None
+  | KReadPart, _ => Some (s, None)
+  | KStorePart, TCrit v st _ =>
+      if Nat.eqb v (e_idx e) then Some (TCrit v st true, None) else Some (s, Some (mkWin t (e_idx e) i i))
+  | KStorePart, _ => Some (s, Some (mkWin t (e_idx e) i i))
+  | KUnlock, THold v _ => if Nat.eqb v (e_idx e) then Some (TIdle, None) else None
+  | KUnlock, TCrit v st stored =>
+      if Nat.eqb v (e_idx e) then Some (TIdle, if stored then Some (mkWin t v st i) else None) else None
   | KUnlock, TIdle => None
   end.
 
-Fixpoint no_conflict (g : graph) (v : nat) (t : nat) (i : nat) (ts : list tst) : bool :=
-  match ts with
-  | [] => true
-  | s :: r =>
-    (if Nat.eqb i t then true
-     else match crit_of s with Some w => negb (adjacentb g v w) | None => true end)
-    && no_conflict g v t (S i) r
-  end.
-
-Fixpoint trace_mutex (g : graph) (ts : list tst) (tr : list event) : bool :=
+Fixpoint windows_of (g : graph) (i : nat) (ts : list tst) (tr : list event) : list window :=
   match tr with
-  | [] => true
+  | [] => []
   | e :: r =>
     match nth_opt ts (e_task e) with
-    | None => false
+    | None => []
     | Some s =>
-      match tst_step g s e with
-      | None => false
-      | Some s' =>
-        let ts' := set_nth ts (e_task e) s' in
-        (match crit_of s' with Some v => no_conflict g v (e_task e) 0 ts' | None => true end)
-        && trace_mutex g ts' r
+      match tst_step g i s e with
+      | None => []
+      | Some (s', w) =>
+        let rest := windows_of g (S i) (set_nth ts (e_task e) s') r in
+        match w with Some x => x :: rest | None => rest end
       end
     end
   end.
+
+Definition win_disjoint (g : graph) (a b : window) : bool :=
+  negb (adjacentb g (wi_v a) (wi_v b)) || Nat.ltb (wi_end a) (wi_start b) || Nat.ltb (wi_end b) (wi_start a).
+Fixpoint windows_ok (g : graph) (ws : list window) : bool :=
+  match ws with
+  | [] => true
+  | a :: r => forallb (win_disjoint g a) r && windows_ok g r
+  end.
+
+Definition trace_mutex (g : graph) (ts : list tst) (tr : list event) : bool :=
+  windows_ok g (windows_of g 0 ts tr).
 
 (* -------------------------------------------- certified checker of C05 *)
 
